@@ -138,6 +138,43 @@ theorem tet_reads_reference_source (cd : Codec C) (h : RoundTrips cd) (m : Raw C
     C04R.parseTet cd (refExportTet cd m) = some (restrictTet m) := by
   rw [parse_tet_bridge]; exact importTet_refExportTet cd h m
 
+/-! ### round 5: `parse_off_data`, `parse_vertex` + `parse_obj_data` read from the source -/
+
+/-- `parse_off_data` (OFF header, `nv nf ne`, `nv` coordinate lines, `nf` records dispatched on their arity) is the modelled reader -/
+theorem parse_off_bridge (cd : Codec C) (file : File) : C04R.parseOff cd file = importOff cd file := parseOff_bridge cd file
+
+/-- one record of the OFF loop: arity 3 -> face, arity 4 -> CELL, arity 2 -> outside the domain, any other arity dropped -/
+theorem off_record_bridge (r : Raw C) (l : Line) : C04R.offRecord r l = stepOff r l := offRecord_bridge r l
+
+/-- `parse_obj_data` (line loop on the prefix, `parse_vertex` per corner, then one face per `f` record in order) is the modelled reader -/
+theorem parse_obj_bridge (cd : Codec C) (file : File) : C04R.parseObj cd file = importObj cd file := parseObj_bridge cd file
+
+/-- obj, BOTH directions as the source has them now -/
+theorem obj_round_trip_source (cd : Codec C) (h : RoundTrips cd) (cfg : Cfg) (m : Raw C) :
+    C04R.parseObj cd (C04W.exportObj cd cfg m) = some (restrictObj cfg m) := by
+  rw [parse_obj_bridge]; exact obj_load_save_source cd h cfg m
+
+/-- off, both directions from the source, ACTUAL behaviour (triangles come back, quads come back as cells, other faces are dropped:
+the open findings); the full statement holds under all-triangles (`off_load_save_partial`) and is refuted on quads / polygons -/
+theorem off_round_trip_source_actual (cd : Codec C) (h : RoundTrips cd) (m : Raw C) (hf : ∀ f ∈ m.faces, f.length ≠ 2) :
+    C04R.parseOff cd (C04W.exportOff cd m) = some { verts := m.verts, faces := ofArity 3 m.faces, cells := ofArity 4 m.faces } := by
+  rw [parse_off_bridge]; exact off_load_save_source_actual cd h m hf
+
+theorem off_round_trip_source_partial (cd : Codec C) (h : RoundTrips cd) (m : Raw C) (hall : ∀ f ∈ m.faces, f.length = 3) :
+    C04R.parseOff cd (C04W.exportOff cd m) = some (restrictOff m) := by
+  rw [off_round_trip_source_actual cd h m (fun f hf => by rw [hall f hf]; decide)]
+  rw [ofArity_all 3 m.faces hall, ofArity_none 4 m.faces (fun f hf => by rw [hall f hf]; decide)]
+  rfl
+
+/-- the translated readers load the files of an independent writer -/
+theorem obj_reads_reference_source (cd : Codec C) (h : RoundTrips cd) (m : Raw C) :
+    C04R.parseObj cd (refExportObj cd m) = some (refObjContent m) := by
+  rw [parse_obj_bridge]; exact importObj_refExportObj cd h m
+
+theorem off_reads_reference_source_actual (cd : Codec C) (h : RoundTrips cd) (m : Raw C) (hf : ∀ f ∈ m.faces, f.length ≠ 2) :
+    C04R.parseOff cd (refExportOff cd m) = some { verts := m.verts, faces := ofArity 3 m.faces, cells := ofArity 4 m.faces } := by
+  rw [parse_off_bridge]; exact importOff_refExportOff_actual cd h m hf
+
 /-! ### extension dispatch and class of the loaded object -/
 
 /-- every extension is routed to `import_<module>` / `export_<module>` of ONE codec module (no format reads with one codec and
@@ -173,6 +210,37 @@ theorem load_dim_override_source (k : Nat) (hk : k ≤ 3) (m : Raw C) :
   have : ∀ k ≤ 3, ∀ d ≤ 3, C04D.instantiate (some ((k : Nat) : Int)) d = some (className (max k d)) := by decide
   exact this k hk d h
 
+/-! ### the whole `save` → `load` pipeline, every step taken from the source -/
+
+/-- `save(mesh, "x.obj", ignore_elements)` then `load("x.obj")`: the extension routes to `export_obj` / `import_obj` (one module),
+the translated writer runs on the re-wrapped mesh, the translated reader gives the restricted content, and the class chosen by
+`_instanciate_raw_mesh_data` is the one implied by that content -/
+theorem obj_save_load_pipeline_source (cd : Codec C) (h : RoundTrips cd) (cfg : Cfg) (ig : Ignore) (m : Raw C) :
+    ("obj", "obj", "export_obj") ∈ C04D.writeRows ∧ ("obj", "obj", "import_obj") ∈ C04D.readRows ∧
+    (C04R.parseObj cd (C04W.exportObj cd cfg (applyIgnore ig m))).map (fun r => (r, C04D.instantiate none (dim r)))
+      = some (restrictObj cfg (applyIgnore ig m), some (className (dim (restrictObj cfg (applyIgnore ig m))))) := by
+  refine ⟨by decide, by decide, ?_⟩
+  rw [obj_round_trip_source cd h]
+  simp [load_class_source]
+
+/-- the same for tet and xyz -/
+theorem tet_save_load_pipeline_source (cd : Codec C) (h : RoundTrips cd) (ig : Ignore) (m : Raw C) :
+    ("tet", "tet", "export_tet") ∈ C04D.writeRows ∧ ("tet", "tet", "import_tet") ∈ C04D.readRows ∧
+    (C04R.parseTet cd (C04W.exportTet cd (applyIgnore ig m))).map (fun r => (r, C04D.instantiate none (dim r)))
+      = some (restrictTet (applyIgnore ig m), some (className (dim (restrictTet (applyIgnore ig m))))) := by
+  refine ⟨by decide, by decide, ?_⟩
+  rw [tet_round_trip_source cd h]
+  simp [load_class_source]
+
+theorem xyz_save_load_pipeline_source (cd : Codec C) (h : RoundTrips cd) (ig : Ignore) (m : Raw C) :
+    ("xyz", "xyz", "export_xyz") ∈ C04D.writeRows ∧ ("xyz", "xyz", "import_xyz") ∈ C04D.readRows ∧
+    (C04R.importXyz cd (C04W.exportXyz cd (applyIgnore ig m))).map (fun r => (r, C04D.instantiate none (dim r)))
+      = some (restrictXyz (applyIgnore ig m), some "PointCloud") := by
+  refine ⟨by decide, by decide, ?_⟩
+  rw [xyz_round_trip_source cd h]
+  have : C04D.instantiate none 0 = some "PointCloud" := by decide
+  simp [restrictXyz, dim, this]
+
 /-! ### non-vacuity -/
 
 private def demo : Raw Unit :=
@@ -191,6 +259,10 @@ example : (C04W.exportStl ucd demo).map List.length = some 4 ∧ C04W.countFaces
 example : C04W.exportStl ucd { demo with faces := [[0, 1, 2, 3, 0]] } = none := by decide
 example : C04R.parseTet ucd (C04W.exportTet ucd demo) = some (restrictTet demo) ∧ (restrictTet demo).cells = [[0, 1, 2, 3]] ∧
     C04R.importXyz ucd (C04W.exportXyz ucd demo) = some (restrictXyz demo) ∧ C04R.parseTet ucd [[Tok.int 1, Tok.kw "vertices"]] = none := by
+  decide
+example : C04R.parseObj ucd (C04W.exportObj ucd {} demo) = some (restrictObj {} demo) ∧ (restrictObj {} demo).faces = [[0, 1, 2], [0, 2, 3, 1]] ∧
+    (C04R.parseOff ucd (C04W.exportOff ucd demo)).map (fun r => (r.faces, r.cells)) = some ([[0, 1, 2]], [[0, 2, 3, 1]]) ∧
+    C04R.parseObj ucd [[Tok.kw "f", Tok.kw "1/2/3"]] = none ∧ C04R.parseOff ucd [[Tok.kw "COFF"], [Tok.int 0, Tok.int 0, Tok.int 0]] = none := by
   decide
 example : C04D.instantiate none (dim demo) = some "VolumeMesh" ∧ C04D.instantiate (some 2) 0 = some "SurfaceMesh" := by decide
 
